@@ -52,6 +52,7 @@ def plan(tier, seed):
 				tasks.append(('t_rows_child', dict(cpu=cpu, fam=fam, kw=kw, shard=s, nshards=nsh)))
 	for threads in (1, 16):
 		tasks.append(('t_db', dict(threads=threads)))
+		tasks.append(('t_db', dict(threads=threads, top=True)))
 	return tasks
 
 
@@ -207,7 +208,10 @@ def db_spec():
 	return taxa, genomes, sigs
 
 
-def t_db(threads):
+TOPMAP = [0, 1, 2 ** 63 - 1, 2 ** 63, 2 ** 64 - 1]       # order-preserving image of the universe 0..4 among 64-bit indices (k = 32), top bit set in two
+
+
+def t_db(threads, top=False):
 	from gambit.db import ReferenceDatabase
 	from gambit.query import query, QueryParams
 	from gambit.results import CSVResultsExporter, JSONResultsExporter
@@ -215,23 +219,24 @@ def t_db(threads):
 	from gambit._cython.threads import omp_set_num_threads
 	sh = Shard()
 	omp_set_num_threads(threads)
-	ks = fixtures.kspec(5, 'AT')
+	ks = fixtures.kspec(32 if top else 5, 'AT')
 	taxa, genomes, sigs = db_spec()
+	lift = (lambda s: [TOPMAP[x] for x in s]) if top else (lambda s: list(s))
 	with fixtures.workdir('c09') as d:
 		fixtures.write_genome_db(os.path.join(d, 'db.gdb'), taxa, genomes)
 		# signature file order differs from genome insertion order and holds two extra signatures
 		order = [3, 0, 8, 1, 'x1', 5, 2, 7, 4, 'x2', 6]
-		fsigs = [sigs[i] if isinstance(i, int) else [1, 4] for i in order]
+		fsigs = [lift(sigs[i] if isinstance(i, int) else [1, 4]) for i in order]
 		fids = [f'g{i}' if isinstance(i, int) else i for i in order]
 		fixtures.write_sigfile(os.path.join(d, 'db.gs'), ks, fsigs, ids=fids, id_attr='key')
 		db = ReferenceDatabase.load_from_dir(d)
 		ref_order = [i for i in order if isinstance(i, int)]
 		if [g.key for g in db.genomes] != [f'g{i}' for i in ref_order]:
-			sh.violation('db-genome-order', dict(threads=threads), [f'g{i}' for i in ref_order], [g.key for g in db.genomes])
+			sh.violation('db-genome-order', dict(threads=threads, **(dict(top=True) if top else {})), [f'g{i}' for i in ref_order], [g.key for g in db.genomes])
 			return sh
 		qsets = [[x for b, x in enumerate(range(5)) if m >> b & 1] for m in range(32)]
-		qarrs = fixtures.sig_arrays(ks, qsets)
-		refarrs = fixtures.sig_arrays(ks, [sigs[i] for i in ref_order])
+		qarrs = fixtures.sig_arrays(ks, [lift(q) for q in qsets])
+		refarrs = fixtures.sig_arrays(ks, [lift(sigs[i]) for i in ref_order])
 		for chunksize in (1, 2, 3, 1000):
 			for N in (1, 2, 3, 9, 14):
 				res = query(db, qarrs, QueryParams(report_closest=N, chunksize=chunksize), inputs=[f'q{m}' for m in range(32)])
@@ -243,7 +248,7 @@ def t_db(threads):
 				js = json.loads(buf.getvalue())
 				for m, item in enumerate(res.items):
 					sh.evals += 1
-					case = dict(query=qsets[m], threads=threads, chunksize=chunksize, N=N)
+					case = dict(query=qsets[m], threads=threads, chunksize=chunksize, N=N, **(dict(top=True) if top else {}))
 					row = [exact_f32(qsets[m], sigs[i]) for i in ref_order]        # exact model, not the library's distance function
 					exp = R.ref_closest(row, N)
 					got = [ref_order.index(int(x.genome.key[1:])) for x in item.closest_genomes]
@@ -305,7 +310,7 @@ def replay(case, kind=None):
 			r = child.run('mc.props.c09', 'replay_child', dict(case=case), env={'NPY_DISABLE_CPU_FEATURES': CPUS[cpu]})
 			return r
 		return replay_child(case)
-	return t_db(case['threads']).violations
+	return t_db(case['threads'], top=bool(case.get('top'))).violations
 
 
 def replay_child(case):
